@@ -405,8 +405,32 @@ func (sl *MultiStringLiteral) WriteTo(cw *CodeWriter) {
 	cw.WriteLeadingComments(sl.Token.LeadingComments)
 	cw.AddMapping(sl.Token.Start)
 	cw.WriteRune('`')
-	cw.WriteString(sl.Value)
+	cw.WriteString(escapeBackticks(sl.Value))
 	cw.WriteRune('`')
+}
+
+// escapeBackticks escapes the backticks of a backtick string's value (the lexer turns \` into a
+// bare backtick); escape pairs are copied as they are.
+func escapeBackticks(value string) string {
+	if !strings.Contains(value, "`") {
+		return value
+	}
+	var b strings.Builder
+	for i := 0; i < len(value); i++ {
+		switch value[i] {
+		case '\\':
+			b.WriteByte(value[i])
+			if i+1 < len(value) && value[i+1] != '`' {
+				i++
+				b.WriteByte(value[i])
+			}
+		case '`':
+			b.WriteString("\\`")
+		default:
+			b.WriteByte(value[i])
+		}
+	}
+	return b.String()
 }
 
 func (sl *MultiStringLiteral) Precedence() int {
